@@ -845,8 +845,10 @@ func TestC07_saga_stop_rule(t *testing.T) {
 		for j := range x0 {
 			x0[j] = rapid.Float64Range(-2, 2).Draw(t, fmt.Sprintf("x0[%d]", j))
 		}
-		c := obs.Begin("saga_stop_rule", "saga least squares z=%v y=%v x0=%v gamma=%v eps=%g maxIterations=%d reg=%s(%v) hook=%v seed=%d", z, y, x0, gamma, eps, maxIt, reg, regv, useHook, seed)
+		kind := rapid.SampledFrom([]string{"1dense", "1dense", "2dense", "1sparse", "2sparse"}).Draw(t, "objective interface")
+		c := obs.Begin("saga_stop_rule", "saga (%s) least squares z=%v y=%v x0=%v gamma=%v eps=%g maxIterations=%d reg=%s(%v) hook=%v seed=%d", kind, z, y, x0, gamma, eps, maxIt, reg, regv, useHook, seed)
 		c.Classf("regularization=%s", reg)
+		c.Classf("objective interface=%s", kind)
 		if useHook {
 			c.Class("hook set")
 		}
@@ -854,13 +856,49 @@ func TestC07_saga_stop_rule(t *testing.T) {
 		for i := range rows {
 			rows[i] = NewDenseFloat64Vector(z[i])
 		}
-		f := saga.Objective1Dense(func(i int, x DenseFloat64Vector) (float64, float64, DenseFloat64Vector, error) {
+		resid := func(i int, x DenseFloat64Vector) float64 {
 			r := -y[i]
 			for j := 0; j < d; j++ {
 				r += z[i][j] * x[j]
 			}
+			return r
+		}
+		idx := make([]int, d)
+		for j := range idx {
+			idx[j] = j
+		}
+		f1d := saga.Objective1Dense(func(i int, x DenseFloat64Vector) (float64, float64, DenseFloat64Vector, error) {
+			r := resid(i, x)
 			return 0.5 * r * r, r, rows[i], nil
 		})
+		// the four objective interfaces describe the same function: value + derivative factor + data row
+		// (1) or value + gradient (2), rows dense or sparse
+		var f interface{} = f1d
+		switch kind {
+		case "2dense":
+			f = saga.Objective2Dense(func(i int, x DenseFloat64Vector) (float64, DenseFloat64Vector, error) {
+				r := resid(i, x)
+				g := make([]float64, d)
+				for j := range g {
+					g[j] = r * z[i][j]
+				}
+				return 0.5 * r * r, NewDenseFloat64Vector(g), nil
+			})
+		case "1sparse":
+			f = saga.Objective1Sparse(func(i int, x DenseFloat64Vector) (float64, float64, SparseConstFloat64Vector, error) {
+				r := resid(i, x)
+				return 0.5 * r * r, r, NewSparseConstFloat64Vector(idx, z[i], d), nil
+			})
+		case "2sparse":
+			f = saga.Objective2Sparse(func(i int, x DenseFloat64Vector) (float64, SparseConstFloat64Vector, error) {
+				r := resid(i, x)
+				g := make([]float64, d)
+				for j := range g {
+					g[j] = r * z[i][j]
+				}
+				return 0.5 * r * r, NewSparseConstFloat64Vector(idx, g, d), nil
+			})
+		}
 		args := []interface{}{saga.Gamma{Value: gamma}, saga.Epsilon{Value: eps}, saga.MaxIterations{Value: maxIt}, saga.Seed{Value: seed}}
 		switch reg {
 		case "l1":
@@ -917,6 +955,30 @@ func TestC07_saga_stop_rule(t *testing.T) {
 			return
 		}
 		xr := floats(res)
+		if kind != "1dense" {
+			// the same objective through the dense interface of kind 1, same seed: the same iterates
+			args1 := []interface{}{saga.Gamma{Value: gamma}, saga.Epsilon{Value: eps}, saga.MaxIterations{Value: maxIt}, saga.Seed{Value: seed}}
+			switch reg {
+			case "l1":
+				args1 = append(args1, saga.L1Regularization{Value: regv})
+			case "l2":
+				args1 = append(args1, saga.L2Regularization{Value: regv})
+			case "tikhonov":
+				args1 = append(args1, saga.TikhonovRegularization{Value: regv})
+			}
+			var ref Vector
+			var err1 error
+			p1, to1 := guarded(func() { ref, _, err1 = saga.Run(f1d, n, NewDenseFloat64Vector(x0), args1...) })
+			if !to1 && p1 == "" && err1 == nil {
+				xw := floats(ref)
+				for j := range xw {
+					if math.Abs(xw[j]-xr[j]) > 1e-9*(1+math.Abs(xw[j])) {
+						t.Fatalf("%s: the %s interface returns %v, the dense interface of kind 1 returns %v for the same objective, options and seed", c.Desc(), kind, xr, xw)
+					}
+				}
+				c.Class("agrees with the dense interface of kind 1")
+			}
+		}
 		if useHook && epochs < maxIt {
 			// stopped by its rule in epoch `epochs`: compare with the iterate of the previous epoch
 			c.NT(epochs >= 2)
